@@ -201,7 +201,11 @@ func ledgerEq(a, b *sim.Ledger) bool {
 // finish: a follower replays every served identity diff of the canonical chain from the genesis
 // identity state and compares the identity root with each canonical header.
 func (h *hist) finish() {
-	for _, r := range []*replica{h.ref, h.reps[len(h.reps)-1]} {
+	servers := []*replica{h.ref, h.reps[len(h.reps)-1]}
+	if h.cfg.faults {
+		servers = h.reps // every replica may have been the one whose insertion failed
+	}
+	for _, r := range servers {
 		db := sim.CopyDB(h.genDB.(dbm.DB))
 		ids, err := state.NewLazyIdentityState(db)
 		if err != nil {
@@ -236,7 +240,7 @@ func (h *hist) finish() {
 				panic(err)
 			}
 		}
-		h.out.Emit(tr.M{"ev": "Follower", "hid": h.id, "server": r.name, "head": head, "bad": bad, "reorgs": h.nReorgs})
+		h.out.Emit(tr.M{"ev": "Follower", "hid": h.id, "server": r.name, "head": head, "bad": bad, "reorgs": h.nReorgs, "failedInserts": h.nFailed})
 	}
 }
 
